@@ -2,9 +2,11 @@ package dom
 
 import (
 	"encoding/json"
+	nats "github.com/nats-io/nats.go"
 	"strconv"
 	"strings"
 	"time"
+	"verif/harness/internal/natsrv"
 
 	res "github.com/jirenius/go-res"
 	"verif/harness/internal/gen"
@@ -83,6 +85,8 @@ func (subsDom) Gen(r *gen.R, tier string, emit func(string)) {
 		one("svc", "gca", "", l, []string{"0"})
 		one("svc", "gca", "q", []string{"0"}, l)
 	}
+	emit(wire.Line("reconnect", "F"))
+	emit(wire.Line("reconnect", "T"))
 	n := 1500
 	if tier == "thorough" {
 		n = 30000
@@ -106,7 +110,67 @@ func parseListArg(a []string) ([]string, bool, []string) {
 	return append([]string{}, a[1:1+k]...), false, a[1+k:]
 }
 
+// subsReconnect: a service on a real NATS connection that drops and reconnects. The reset sent
+// on start must be sent again after the reconnect, with or without an OnReconnect callback.
+func subsReconnect(withCallback bool) string {
+	srv, err := natsrv.Shared()
+	if err != nil {
+		return "nats-failed"
+	}
+	host := strings.TrimPrefix(srv.URL, "nats://")
+	proxy, err := natsrv.NewProxy(host)
+	if err != nil {
+		return "proxy-failed"
+	}
+	defer proxy.Close()
+	obs, err := srv.Connect()
+	if err != nil {
+		return "nats-failed"
+	}
+	defer obs.Close()
+	resets := make(chan string, 16)
+	if _, err := obs.Subscribe("system.reset", func(m *nats.Msg) { resets <- canonJSON(m.Data) }); err != nil {
+		return "nats-failed"
+	}
+	obs.Flush()
+	nc, err := nats.Connect(proxy.URL(), nats.ReconnectWait(20*time.Millisecond), nats.MaxReconnects(-1))
+	if err != nil {
+		return "nats-failed"
+	}
+	s := res.NewService("rc" + strconv.FormatInt(time.Now().UnixNano()%1000000, 10))
+	s.SetLogger(nopLogger{})
+	s.Handle("m", res.GetResource(func(r res.GetRequest) { r.NotFound() }), res.Access(res.AccessGranted))
+	reconnected := make(chan struct{}, 4)
+	if withCallback {
+		s.SetOnReconnect(func(*res.Service) { reconnected <- struct{}{} })
+	}
+	done := make(chan error, 1)
+	go func() { done <- s.Serve(nc) }()
+	var first string
+	select {
+	case first = <-resets:
+	case <-time.After(3 * time.Second):
+		s.Shutdown()
+		return "no-reset-on-start"
+	}
+	proxy.Cut()
+	again := "none"
+	select {
+	case again = <-resets:
+	case <-time.After(3 * time.Second):
+	}
+	s.Shutdown()
+	select {
+	case <-done:
+	case <-time.After(3 * time.Second):
+	}
+	return "reconnect start-reset=T again-reset=" + wire.Bool(again != "none") + " same=" + wire.Bool(again == first)
+}
+
 func (subsDom) Exec(a []string) string {
+	if len(a) == 2 && a[0] == "reconnect" {
+		return Safe(func() string { return subsReconnect(a[1] == "T") })
+	}
 	return Safe(func() string {
 		if len(a) < 5 || a[0] != "serve" || a[4] != "R" {
 			return "bad-op"
